@@ -39,7 +39,9 @@ def replyEvents (act : String) (al ch : Nat) (cut endk : String) (uob : Nat) : L
   let chunks (bs : Bytes) : List Ev :=
     if bs.isEmpty then [] else
     if ch == 0 then [.rdBody bs] else
-    (List.range ((bs.length + ch - 1) / ch)).map fun i => Ev.rdBody ((bs.drop (i * ch)).take ch)
+    -- the outcome does not depend on the chunking: at most 64 read events
+    let step := max ch ((bs.length + 63) / 64)
+    (List.range ((bs.length + step - 1) / step)).map fun i => Ev.rdBody ((bs.drop (i * step)).take step)
   let cutHead := cut.startsWith "i"
   let head (status : Nat) (h b : Bool) : List Ev := if cutHead then fin else [.rdIcap status h b false]
   let closing : List Ev := if endk == "c" then [.rdEof] else if endk == "r" then [.rdError] else []
